@@ -1,7 +1,7 @@
 """C12 — progeny (co)variance matrices of two-/three-/four-way DH and dihybrid crosses:
 correspondence between Model/C12_Var.v and the pybrops variance/covariance matrix classes, their factories and the
 usefulness criterion, plus the independent predicate (gamete enumeration)."""
-import math, itertools, contextlib
+import math, itertools, contextlib, copy as _copy
 from fractions import Fraction
 import numpy
 import coqemit as E
@@ -23,23 +23,43 @@ LEVEL_TEXT = ("Coq theorems over an exact-rational executable model of the block
               "it agrees with the repaired code off that diagonal and is refuted on it by computed witnesses (regression statements); "
               "(4) symmetry in exchangeable parents and traits, zero for identical parents, taxa equivariance under every index map, "
               "every entry of the two-, three-, four-way and dihybrid genic matrices = genetic with linkage ignored, "
-              "UC = mean + i*sqrt(var), Haldane no-interference over R. "
+              "UC = mean + i*sqrt(var), Haldane no-interference over R; "
+              "(5) the kernel expressions of the CURRENT source (rprob_filial / cov_D1s / cov_D2s / srange; for each of the eight genetic (co)variance loop nests: "
+              "group zip, chunk step, row / column chunk zips, which helper feeds D1 / D2, the taxa loop ranges, the accumulation index tuple, which D table and which two "
+              "haplotypes every partial sum combines, the combination, the scaling, the mirror loops and assignment, allocated shape, constructor keywords, epgc; "
+              "for the four genic classes: weights, parent tuple, per-marker term, loop ranges, written positions; _calc_uc's mean and criterion) are regenerated into "
+              "Gen/C12_Kernel.v on every run, proved equal to the model's, and the exactness / selfing / chunking / genic / usefulness theorems are restated about matrices "
+              "re-assembled from the generated definitions alone (C12_kernel_*): a changed expression breaks Props/C12.vo whatever the cases exercise; "
+              "(6) scale covariance (effects x c => every entry x c^2; UC conditions preserved) and the session law (a call's result is the model of the state at that call; "
+              "earlier calls leave no trace). "
               "The model is tied to the code by evaluating it inside Coq (vm_compute, exact Q, tolerance 2^-30) against the implementation's matrices.")
 LEVEL_NOTE = ("trusted: Coq kernel + vm_compute; classical-real axioms only in the Haldane lemma; the tie to the code is differential on generated inputs; "
               "recombination fractions r_ij are either computed in the model (positions on the k*ln2/2 grid where Haldane's r is the rational (1-2^-k)/2, "
               "proved to be chain fractions) or taken from the implementation's HaldaneMapFunction.mapfn on |genpos_i-genpos_j| and checked in Coq for "
               "no-interference multiplicativity (2^-30); the enumeration theorems quantify over rational gap probabilities (Haldane values are irrational; "
               "the identities are polynomial); nself=inf is covered by the limit bound, not by an enumeration; sqrt in UC compared through squares; "
-              "genic covariance classes (abstract in pybrops) and from_pandas/hdf5 round trips are not modelled; trait/taxa labels, epgc and the result class are checked by the predicate only")
+              "genic covariance classes (abstract in pybrops: the audit fails if they become instantiable) and from_pandas/hdf5 round trips are not modelled; "
+              "trait/taxa labels, epgc (also a generated kernel), the result class, axis properties, to_pandas rows, untouched inputs / unshared arrays / no stale results are checked by the predicate only; "
+              "the kernel translator (harness/translate/c12_kernel.py) is trusted and fail-closed; it translates index arithmetic over nat (all quantities are non-negative indices; the only "
+              "subtraction is lsp - lst of a group's bounds) and float expressions over Q (regime T); Kosambi cases: r_ij come from the implementation's KosambiMapFunction.mapfn "
+              "(the entry-exactness theorems hold for any table of pair fractions; the multi-locus no-interference theorems do not apply); cases with > 255 markers are predicate-only")
 TECHNIQUE = "Coq proof over an executable exact-rational model + enumeration semantics; in-Coq vm_compute correspondence; Python gamete enumeration as independent predicate"
 RULE = ("case = (scheme two|three|four|di, kind var|cov|genic|uc, entry point from_algmod|from_gmod|factory, phased 0/1 genotypes, chromosome sizes, "
         "positions (ln2/2 grid or dyadic), dyadic marker effects for 1-3 traits, nself in {0,1,2,3,5,inf}, mem in {1,2,3,5,None,...}); one PRNG; "
         "corners: 1 taxon, 1 marker, 1-marker chromosomes, duplicate parents, coincident positions, mem = / > chromosome size; every index tuple of every "
         "matrix is compared, so crosses with a repeated parent (female == male, female1 == male1, dihybrid selfs, genic diagonals) are in every case; "
+        "phase 2: entry-point audit by introspection (every public class / function / method / parameter of vmat, vmat.fcty, pcvmat, util.py, srange, the UC module is driven or listed in "
+        "SKIPPED with a reason; anything new fails), util.py helpers called directly (1-D and 2-D r, t = 0 variants), ncross in {1,3}, nprogeny in {1,10,80}, effects scaled by "
+        "2^{-40,-20,-8,0,7,20} (reported values divided by 4^e exactly), free positions scaled by 2^{-34,0,14}, Haldane and Kosambi, inputs obtained by constructor / copy / deepcopy / "
+        "select_taxa from a larger population / property setters / a session (same objects used for an earlier call in another state, then updated in place), from_pgmat_gpmod_xmap, "
+        "258-marker linkage group with mem in {127,128,None} (predicate only); after every call: inputs byte-identical, result shares no memory with inputs or a second result, a clobbered "
+        "result does not influence the next call, an earlier session result is untouched; axis properties and every to_pandas row against the matrix; "
         "non-trivial = some cross has parents differing at >= 2 linked markers; distinct by SHA-256 of the case")
 TRUSTED = ["numpy float64 matrix products are compared in tolerance regime T (2^-30 relative to 1+|exact value|) against the exact rational model",
            "free-position cases: the r_ij fed to the Coq model come from HaldaneMapFunction.mapfn (verified by C11); the predicate recomputes them with math.exp",
-           "numpy.empty is poisoned with NaN inside run_impl (harness side) so that reads of uninitialised memory are deterministic"]
+           "numpy.empty is poisoned with NaN inside run_impl (harness side) so that reads of uninitialised memory are deterministic",
+           "harness/translate/c12_kernel.py (ast -> Gen/C12_Kernel.v, fail closed) and the hand-written link lemmas of Proofs/C12_Kernel.v (reflexivity / case analysis)",
+           "scaling by powers of two commutes exactly with binary64 arithmetic in the absence of under/overflow (uscale in [-40, 20])"]
 ASSUMPTIONS = ["alleles coded 0/1, ploidy 2; two-/three-/four-way parents inbred (both phases identical); markers sorted by chromosome and position; mem >= 1 or None"]
 
 LN2H = math.log(2.0) / 2.0
@@ -57,12 +77,13 @@ def _mkcase(rng, scheme, kind, **kw):
     if posmode == "free" and nself != 0:
         maxp = min(maxp, 7)                       # denominators 1+2r are pairwise coprime: keep the exact sums small
     sizes = kw.get("sizes")
+    if kw.get("big"): maxp = 10 ** 6
     if sizes is None:
         while True:
             sizes = [rng.choice([1, 2, 3, 3, 4, 5, 6]) for _ in range(nchr)]
             if sum(sizes) <= maxp: break
     p = sum(sizes)
-    t = kw.get("t", rng.choice([1, 2, 2, 3]))
+    t = kw.get("t") or rng.choice([1, 2, 2, 3])
     pos = []
     for s in sizes:
         x = 0 if rng.random() < 0.5 else rng.randint(0, 3)
@@ -70,6 +91,12 @@ def _mkcase(rng, scheme, kind, **kw):
             pos.append(x)
             if posmode == "ln2": x += rng.choice([0, 1, 1, 1, 2, 3])
             else: x += rng.choice([0, 1, 2, 3, 5, 8, 13, 24, 40])         # units of 1/64 Morgan
+    if kw.get("big"):
+        pos = []
+        for s_ in sizes:
+            x = 0
+            for k_ in range(s_):
+                pos.append(x); x += 1 if k_ % 16 == 15 else 0      # dense map: r stays well inside (0, 1/2)
     hap0 = [[rng.randint(0, 1) for _ in range(p)] for _ in range(n)]
     if n >= 2 and rng.random() < 0.3:
         hap0[rng.randrange(n)] = list(hap0[rng.randrange(n)])            # duplicate (genetically identical) parents
@@ -91,6 +118,18 @@ def _mkcase(rng, scheme, kind, **kw):
     case = {"scheme": scheme, "kind": kind, "via": via, "hap0": hap0, "hap1": hap1, "sizes": sizes, "pos": pos, "posmode": posmode,
             "u": u, "beta": [rng.randint(-8, 8) for _ in range(t)], "nself": nself, "mem": mem,
             "perm": rng.sample(range(n), n), "tlabels": rng.random() < 0.8}
+    if kw.get("big"): case["big"] = True
+    # phase-2 dimensions: non-default ncross / nprogeny (must not matter), marker effects far from 1 (dyadic scale 2^uscale; the
+    # reported values are divided by 4^uscale, exactly), how the input objects are obtained (constructor, copy, deepcopy, select_taxa
+    # out of a larger population, property setters, a SESSION = same objects used for an earlier call in another state and updated
+    # in place), positions far from 1 (2^pe) and the second map function (free positions only)
+    case["ncross"] = kw.get("ncross", rng.choice([1, 1, 3]))
+    case["nprogeny"] = kw.get("nprogeny", rng.choice([10, 10, 1, 80]))
+    case["uscale"] = kw.get("uscale", rng.choice([0, 0, 0, 0, -40, -20, -8, 7, 20]))
+    case["route"] = kw.get("route", rng.choice(["ctor", "ctor", "copy", "deepcopy", "select", "session", "setter"]))
+    if posmode == "free":
+        case["pe"] = kw.get("pe", rng.choice([0, 0, 0, -34, 14]))
+        case["mapfn"] = kw.get("mapfn", rng.choice(["haldane", "haldane", "kosambi"]))
     if kind == "uc":
         case["nself"] = nself if nself != "inf" else 4
         case["si"] = rng.choice([0, 2, 4, 6, 7, 11])                       # units of 1/4
@@ -98,6 +137,7 @@ def _mkcase(rng, scheme, kind, **kw):
         case["ucvia"] = kw.get("ucvia", rng.choice(["calc", "calc", "Subset", "Real", "Integer", "Binary"]))
         case["pct"] = rng.choice([1, 2, 4, 8, 16])                          # upper percentile = pct/32
         case["via"] = "fcty_gmod"
+        case["xmapctor"] = rng.random() < 0.4          # from_pgmat_gpmod_xmap with the cross map handed in explicitly
     return case
 
 def gen_cases(rng, tier):
@@ -127,6 +167,23 @@ def gen_cases(rng, tier):
                             ucvia=ucvia, sizes=[2, 2] if scheme == "four" else None)
                 c["unique"] = unique
                 cases.append(c)
+    # entry-point audit (introspection, fail closed) and the helper functions of vmat/util.py called directly
+    cases.append({"kind": "audit", "scheme": "two"})
+    for nself in (0, 1, 2, 5, "inf"):
+        cases.append({"kind": "util", "scheme": "two", "nself": nself, "rs": sorted(set([0, 32] + [rng.randint(0, 32) for _ in range(6)])),
+                      "shape2": rng.random() < 0.5})
+    # every scheme x every route of obtaining the inputs, at a non-trivial scale; both map functions
+    for scheme in SCHEMES:
+        for route in ("copy", "deepcopy", "select", "session", "setter"):
+            cases.append(_mkcase(rng, scheme, rng.choice(["var", "cov"]), route=route, n=2 if scheme == "four" else 3, uscale=rng.choice([-40, 20, 0]),
+                                 via=rng.choice(["algmod", "gmod"])))
+        for kind_ in ("var", "cov"):
+            cases.append(_mkcase(rng, scheme, kind_, posmode="free", mapfn="kosambi", n=2, nself=rng.choice([0, 1, "inf"]), via="algmod", t=2 if kind_ == "cov" else None))
+        cases.append(_mkcase(rng, scheme, "uc", route="session", uscale=-20, n={"two": 3, "three": 3, "four": 2, "di": 3}[scheme], ucvia="calc"))
+    # more markers than a narrow integer can count (> 255), chunk size at the 128 boundary: predicate only (not evaluated in Coq)
+    for scheme in (("two", "three") if tier == "quick" else SCHEMES):
+        cases.append(_mkcase(rng, scheme, rng.choice(["var", "cov"]), n=2, sizes=[258, 3], t=1, nself=rng.choice([0, 2]), mem=rng.choice([128, 127, None]),
+                             posmode="ln2", via="algmod", route="ctor", big=True))
     N = {"quick": 170, "thorough": 2600}[tier]
     for _ in range(N):
         scheme = rng.choice(["two", "two", "three", "four", "di", "di"])
@@ -144,7 +201,16 @@ def gen_cases(rng, tier):
 # ----------------------------------------------------------------------------------------------- implementation driver
 def _genpos(case):
     if case["posmode"] == "ln2": return [k * LN2H for k in case["pos"]]
-    return [k / 64.0 for k in case["pos"]]
+    return [k / 64.0 * 2.0 ** case.get("pe", 0) for k in case["pos"]]
+
+def _usc(case): return 2.0 ** case.get("uscale", 0)
+
+def _mapfn_obj(case):
+    if case.get("mapfn", "haldane") == "kosambi":
+        from pybrops.popgen.gmap.KosambiMapFunction import KosambiMapFunction
+        return KosambiMapFunction()
+    from pybrops.popgen.gmap.HaldaneMapFunction import HaldaneMapFunction
+    return HaldaneMapFunction()
 
 def _chrgrp(case):
     out = []
@@ -163,24 +229,68 @@ def _poison_empty():
     try: yield
     finally: numpy.empty = orig
 
-def _objects(case, perm=None):
-    from pybrops.popgen.gmat.DensePhasedGenotypeMatrix import DensePhasedGenotypeMatrix
-    from pybrops.model.gmod.DenseAdditiveLinearGenomicModel import DenseAdditiveLinearGenomicModel
-    from pybrops.popgen.gmap.HaldaneMapFunction import HaldaneMapFunction
+def _state(case, perm=None, decoy=False):
+    """the arrays of the wanted state (or of a DECOY state of the same shapes: other alleles, effects, positions)"""
     h0 = numpy.array(case["hap0"], dtype="int8"); h1 = numpy.array(case["hap1"], dtype="int8")
     n, p = h0.shape
     taxa = numpy.array(["T%02d" % i for i in range(n)], dtype=object)
     grp = numpy.array([i // 2 for i in range(n)], dtype=int)
     if perm is not None:
         h0, h1, taxa, grp = h0[perm], h1[perm], taxa[perm], grp[perm]
-    pg = DensePhasedGenotypeMatrix(numpy.stack([h0, h1]), taxa=taxa, taxa_grp=grp, vrnt_chrgrp=numpy.array(_chrgrp(case), dtype=int),
-                                   vrnt_phypos=numpy.arange(1, p + 1) * 10, vrnt_genpos=numpy.array(_genpos(case), dtype=float))
+    u = numpy.array(case["u"], dtype=float) / 4.0 * _usc(case)
+    beta = numpy.array([case["beta"]], dtype=float) * _usc(case)
+    genpos = numpy.array(_genpos(case), dtype=float)
+    if decoy:
+        h0 = (1 - h0[::-1]).astype("int8"); h1 = numpy.roll(h1, 1, axis=1).astype("int8")
+        u = -1.5 * u[::-1] + _usc(case); beta = beta + 3.0 * _usc(case); genpos = genpos * 1.5 + numpy.arange(p) * 0.03125
+    return dict(h0=h0, h1=h1, taxa=taxa, grp=grp, u=u, beta=beta, genpos=genpos)
+
+def _build(case, st):
+    from pybrops.popgen.gmat.DensePhasedGenotypeMatrix import DensePhasedGenotypeMatrix
+    from pybrops.model.gmod.DenseAdditiveLinearGenomicModel import DenseAdditiveLinearGenomicModel
+    p = st["h0"].shape[1]
+    pg = DensePhasedGenotypeMatrix(numpy.stack([st["h0"], st["h1"]]), taxa=st["taxa"], taxa_grp=st["grp"], vrnt_chrgrp=numpy.array(_chrgrp(case), dtype=int),
+                                   vrnt_phypos=numpy.arange(1, p + 1) * 10, vrnt_genpos=st["genpos"].copy())
     pg.group_vrnt()
     t = len(case["u"][0])
     trait = numpy.array(["tr%d" % k for k in range(t)], dtype=object) if case.get("tlabels", True) else None
-    gm = DenseAdditiveLinearGenomicModel(beta=numpy.array([case["beta"]], dtype=float), u_misc=None,
-                                         u_a=numpy.array(case["u"], dtype=float) / 4.0, trait=trait)
-    return pg, gm, HaldaneMapFunction()
+    gm = DenseAdditiveLinearGenomicModel(beta=st["beta"].copy(), u_misc=None, u_a=st["u"].copy(), trait=trait)
+    return pg, gm
+
+def _objects(case, perm=None, first_call=None):
+    """the input objects in the wanted state, obtained by the route the case names.  `first_call(pg, gm, mf)` is what a session does
+    with the objects while they are still in the decoy state (its result is returned for the stale-result checks)."""
+    route = case.get("route", "ctor")
+    mf = _mapfn_obj(case)
+    st = _state(case, perm)
+    early = None
+    if route in ("ctor", "copy", "deepcopy"):
+        pg, gm = _build(case, st)
+        if route == "copy": pg, gm = _copy.copy(pg), _copy.copy(gm)
+        elif route == "deepcopy": pg, gm = _copy.deepcopy(pg), _copy.deepcopy(gm)
+    elif route == "select":
+        # a larger population: a decoy taxon in front of every wanted one; the wanted ones are selected in order
+        dc = _state(case, perm, decoy=True)
+        n = len(st["taxa"])
+        big = {k: numpy.stack([x for i in range(n) for x in (dc[k][i], st[k][i])]) for k in ("h0", "h1")}
+        big["taxa"] = numpy.array([x for i in range(n) for x in ("D%02d" % i, st["taxa"][i])], dtype=object)
+        big["grp"] = numpy.array([x for i in range(n) for x in (90 + i, st["grp"][i])], dtype=int)
+        big.update(u=st["u"], beta=st["beta"], genpos=st["genpos"])
+        pg0, gm = _build(case, big)
+        pg = pg0.select_taxa(numpy.arange(1, 2 * n, 2))
+        if not pg.is_grouped_vrnt(): pg.group_vrnt()
+    else:
+        dc = _state(case, perm, decoy=True)
+        pg, gm = _build(case, dc)
+        if route == "session" and first_call is not None:
+            try: early = first_call(pg, gm, mf)
+            except Exception as e: early = "raised " + type(e).__name__
+        if route == "setter":
+            pg.mat = numpy.stack([st["h0"], st["h1"]]); pg.vrnt_genpos = st["genpos"].copy(); gm.u_a = st["u"].copy(); gm.beta = st["beta"].copy()
+        else:                                   # session: in-place updates of the arrays the objects hold
+            pg.mat[0, :, :] = st["h0"]; pg.mat[1, :, :] = st["h1"]; pg.vrnt_genpos[:] = st["genpos"]; gm.u_a[:, :] = st["u"]; gm.beta[:, :] = st["beta"]
+    if first_call is not None: return pg, gm, mf, early
+    return pg, gm, mf
 
 def _nself(case):
     return numpy.inf if case["nself"] == "inf" else int(case["nself"])
@@ -198,23 +308,53 @@ def _factory(scheme, kind):
     name = "Dense%sDHAdditive%sVarianceMatrixFactory" % (CLSNAME[scheme], "Genic" if kind == "genic" else "Genetic")
     return getattr(importlib.import_module("pybrops.model.vmat.fcty." + name), name)()
 
-def _compute(case, mem, perm=None):
-    pg, gm, mf = _objects(case, perm)
+def _call(case, mem, pg, gm, mf):
     scheme, kind, via = case["scheme"], case["kind"], case["via"]
     nself = _nself(case)
+    nc, npg = case.get("ncross", 1), case.get("nprogeny", 10)
+    cls = _matrix_class(scheme, kind)
     with _poison_empty():
         if kind == "genic":
-            cls = _matrix_class(scheme, kind)
-            if via == "algmod": o = cls.from_algmod(gm, pg, 10, mem=mem)
-            elif via == "gmod": o = cls.from_gmod(gm, pg, 10, mem=mem)
-            elif via == "fcty_gmod": o = _factory(scheme, kind).from_gmod(gm, pg, 10, mem=mem)
-            else: o = _factory(scheme, kind).from_algmod(gm, pg, 10, mem=mem)
+            if via == "algmod": o = cls.from_algmod(gm, pg, npg, mem=mem)
+            elif via == "gmod": o = cls.from_gmod(gm, pg, npg, mem=mem)
+            elif via == "fcty_gmod": o = _factory(scheme, kind).from_gmod(gm, pg, npg, mem=mem)
+            else: o = _factory(scheme, kind).from_algmod(gm, pg, npg, mem=mem)
         else:
-            cls = _matrix_class(scheme, kind)
-            if via == "algmod": o = cls.from_algmod(gm, pg, 1, 10, nself, mf, mem=mem)
-            elif via == "gmod": o = cls.from_gmod(gm, pg, 1, 10, nself, mf, mem=mem)
-            elif via == "fcty_gmod": o = _factory(scheme, kind).from_gmod(gm, pg, 1, 10, nself, mf, mem=mem)
-            else: o = _factory(scheme, kind).from_algmod(gm, pg, 1, 10, nself, mf, mem=mem)
+            if via == "algmod": o = cls.from_algmod(gm, pg, nc, npg, nself, mf, mem=mem)
+            elif via == "gmod": o = cls.from_gmod(gm, pg, nc, npg, nself, mf, mem=mem)
+            elif via == "fcty_gmod": o = _factory(scheme, kind).from_gmod(gm, pg, nc, npg, nself, mf, mem=mem)
+            else: o = _factory(scheme, kind).from_algmod(gm, pg, nc, npg, nself, mf, mem=mem)
+    return o, cls
+
+def _snap(pg, gm):
+    return [pg.mat.tobytes(), pg.vrnt_genpos.tobytes(), gm.u_a.tobytes(), gm.beta.tobytes(), repr(list(pg.taxa)), repr(list(pg.taxa_grp)),
+            repr(list(pg.vrnt_chrgrp)), repr(None if gm.trait is None else list(gm.trait))]
+
+def _compute(case, mem, perm=None, hygiene=None):
+    """one computation; with `hygiene` (a list) also: inputs unchanged by the call, the result shares no memory with the inputs nor with a
+    second result, a result clobbered in place does not influence the next call, a session's earlier result is not touched"""
+    pg, gm, mf, early = _objects(case, perm, first_call=lambda a, b, c: _call(case, mem, a, b, c)[0])
+    if isinstance(early, str):
+        if hygiene is not None: hygiene.append("session: the first call (other state of the same objects) " + early)
+        early = None
+    early_snap = None if early is None else early.mat.copy()
+    before = _snap(pg, gm)
+    o, cls = _call(case, mem, pg, gm, mf)
+    if hygiene is not None:
+        names = ["pgmat.mat", "pgmat.vrnt_genpos", "algmod.u_a", "algmod.beta", "pgmat.taxa", "pgmat.taxa_grp", "pgmat.vrnt_chrgrp", "algmod.trait"]
+        for nm, a, b in zip(names, before, _snap(pg, gm)):
+            if a != b: hygiene.append("the call modified its input %s" % nm)
+        for nm, arr in (("pgmat.mat", pg.mat), ("algmod.u_a", gm.u_a), ("pgmat.vrnt_genpos", pg.vrnt_genpos)):
+            if numpy.shares_memory(o.mat, arr): hygiene.append("the result's mat shares memory with %s" % nm)
+        if early is not None:
+            if numpy.shares_memory(o.mat, early.mat): hygiene.append("session: two results share their mat array")
+            if early.mat.tobytes() != early_snap.tobytes(): hygiene.append("session: an earlier result changed when the objects were used again")
+        keep = o.mat.copy()
+        o.mat.fill(777.0)
+        o2, _ = _call(case, mem, pg, gm, mf)
+        if numpy.shares_memory(o2.mat, o.mat): hygiene.append("two calls return the same mat array")
+        if o2.mat.tobytes() != keep.tobytes(): hygiene.append("a second call on the same objects (first result overwritten in place) gives other values")
+        o.mat[...] = keep
     return o, cls
 
 def _fl(a):
@@ -228,23 +368,51 @@ def _fl(a):
 def _labels(x):
     return None if x is None else [str(v) for v in x]
 
-def _summary(o, cls):
-    return {"mat": _fl(o.mat), "shape": list(o.mat.shape), "trait": _labels(o.trait), "taxa": _labels(o.taxa),
-            "taxa_grp": None if o.taxa_grp is None else [int(v) for v in o.taxa_grp], "epgc": [float(x) for x in o.epgc],
-            "isinst": bool(type(o) is cls)}
+AXES = {"two": ["female", "male"], "di": ["female", "male"], "three": ["recurrent", "female", "male"], "four": ["female2", "male2", "female1", "male1"]}
+
+def _summary(o, cls, case=None):
+    k4 = 1.0 if case is None else _usc(case) ** 2
+    out = {"mat": _fl(o.mat / k4), "shape": list(o.mat.shape), "trait": _labels(o.trait), "taxa": _labels(o.taxa),
+           "taxa_grp": None if o.taxa_grp is None else [int(v) for v in o.taxa_grp], "epgc": [float(x) for x in o.epgc],
+           "isinst": bool(type(o) is cls)}
+    if case is not None and not case.get("big"):
+        ax = {}
+        for nm in AXES[case["scheme"]]:
+            ax[nm + "_axis"] = int(getattr(o, nm + "_axis")); ax["n" + nm] = int(getattr(o, "n" + nm))
+        ax["trait_axis"] = int(o.trait_axis); ax["ntaxa"] = int(o.ntaxa); ax["ntrait"] = int(o.ntrait)
+        ax["square_taxa_axes"] = [int(v) for v in o.square_taxa_axes]
+        out["axes"] = ax
+        if o.mat.size <= 600:
+            # the labelled long table: one row per cross and trait (pair)
+            try:
+                df = o.to_pandas()
+                cols = [c for c in df.columns if not str(c).endswith("_grp")]
+                rows = []
+                for r in df[cols].itertuples(index=False):
+                    v = float(r[-1]) / k4
+                    rows.append([str(x) for x in r[:-1]] + ["nan" if math.isnan(v) else v])
+                out["pandas"] = {"cols": [str(c) for c in cols], "rows": rows}
+            except Exception as e:
+                out["pandas"] = "raised %s: %s" % (type(e).__name__, str(e)[:120])
+    return out
 
 def _rmatrix(case):
-    from pybrops.popgen.gmap.HaldaneMapFunction import HaldaneMapFunction
     g = numpy.array(_genpos(case), dtype=float)
-    return HaldaneMapFunction().mapfn(numpy.abs(g[:, None] - g[None, :]))
+    return _mapfn_obj(case).mapfn(numpy.abs(g[:, None] - g[None, :]))
 
 def run_impl(case):
     out = {}
     if case["kind"] == "uc":
         return _run_uc(case)
+    if case["kind"] == "audit":
+        return {"audit": _audit()}
+    if case["kind"] == "util":
+        return _run_util(case)
     try:
-        o, cls = _compute(case, case["mem"])
-        out.update(_summary(o, cls))
+        hyg = []
+        o, cls = _compute(case, case["mem"], hygiene=hyg)
+        out.update(_summary(o, cls, case))
+        out["hygiene"] = hyg
     except Exception as e:
         out["raised"] = type(e).__name__; out["msg"] = str(e)[:200]
         return out
@@ -252,24 +420,29 @@ def run_impl(case):
         out["R"] = _fl(_rmatrix(case))
     # the same computation with unlimited chunk size, and with the taxa reordered
     if case["kind"] != "genic":
-        try: out["mat_memnone"] = _fl(_compute(case, None)[0].mat)
+        try: out["mat_memnone"] = _fl(_compute(case, None)[0].mat / _usc(case) ** 2)
         except Exception as e: out["mat_memnone"] = "raised " + type(e).__name__
     try:
         o2, _ = _compute(case, case["mem"], perm=numpy.array(case["perm"], dtype=int))
-        out["mat_perm"] = _fl(o2.mat); out["taxa_perm"] = _labels(o2.taxa)
+        out["mat_perm"] = _fl(o2.mat / _usc(case) ** 2); out["taxa_perm"] = _labels(o2.taxa)
     except Exception as e: out["mat_perm"] = "raised " + type(e).__name__
     return out
 
 def _run_uc(case):
     import pybrops.breed.prot.sel.prob.UsefulnessCriterionSelectionProblem as UC
     out = {}
-    pg, gm, mf = _objects(case)
     fc = _factory(case["scheme"], "var")
     npar = NPAR[case["scheme"]]
-    n = pg.ntaxa
     nself = int(case["nself"])
     P = UC.UsefulnessCriterionSubsetMateSelectionProblem
-    out["bv"] = _fl(gm.gebv(pg).unscale())
+    nc, npg = case.get("ncross", 1), case.get("nprogeny", 10)
+    def first(pg_, gm_, mf_):
+        xm = P._calc_xmap(pg_.ntaxa, npar, case["unique"])
+        return None if xm.ndim != 2 else P._calc_uc(fc, nc, npg, nself, mf_, 1.25, pg_, gm_, xm)
+    pg, gm, mf, early = _objects(case, first_call=first)
+    early_snap = None if early is None or isinstance(early, str) else early.copy()
+    n = pg.ntaxa
+    out["bv"] = _fl(gm.gebv(pg).unscale() / _usc(case))
     try:
         if case["ucvia"] == "calc":
             si = case["si"] / 4.0
@@ -277,7 +450,7 @@ def _run_uc(case):
             if xmap.ndim != 2:
                 out["raised"] = "empty-xmap"; return out
             with _poison_empty():
-                uc = P._calc_uc(fc, 1, 10, nself, mf, si, pg, gm, xmap)
+                uc = P._calc_uc(fc, nc, npg, nself, mf, si, pg, gm, xmap)
         else:
             import scipy.stats
             pct = case["pct"] / 32.0
@@ -294,17 +467,176 @@ def _run_uc(case):
                 lo = numpy.repeat(0.0 if case["ucvia"] == "Real" else 0, nx); hi = numpy.repeat(1.0 if case["ucvia"] == "Real" else 1, nx)
                 kw = dict(ndecn=nx, decn_space=numpy.stack([lo, hi]), decn_space_lower=lo, decn_space_upper=hi)
             with _poison_empty():
-                prob = cls.from_pgmat_gpmod(npar, 1, 10, nself, pct, fc, mf, case["unique"], pg, gm, nobj=t, **kw)
+                if case.get("xmapctor"):
+                    prob = cls.from_pgmat_gpmod_xmap(npar, nc, npg, nself, pct, fc, mf, case["unique"], pg, gm, xmap0.copy(), nobj=t, **kw)
+                else:
+                    prob = cls.from_pgmat_gpmod(npar, nc, npg, nself, pct, fc, mf, case["unique"], pg, gm, nobj=t, **kw)
             uc = prob.ucmat; xmap = prob.decn_space_xmap
     except Exception as e:
         out["raised"] = type(e).__name__; out["msg"] = str(e)[:200]
         return out
-    out["uc"] = _fl(uc); out["xmap"] = [[int(v) for v in r] for r in xmap]; out["si"] = si
+    out["uc"] = _fl(numpy.asarray(uc) / _usc(case)); out["xmap"] = [[int(v) for v in r] for r in xmap]; out["si"] = si
+    hyg = []
+    if isinstance(early, str): hyg.append("session: the first call " + early)
+    elif early is not None:
+        if numpy.shares_memory(early, uc): hyg.append("session: two usefulness-criterion results share memory")
+        if early.tobytes() != early_snap.tobytes(): hyg.append("session: an earlier usefulness-criterion result changed when the objects were used again")
+    out["hygiene"] = hyg
     if case["posmode"] == "free": out["R"] = _fl(_rmatrix(case))
     return out
 
+# ----------------------------------------------------------------------------------------------- vmat/util.py called directly
+def _run_util(case):
+    import pybrops.model.vmat.util as U_
+    r0 = numpy.array(case["rs"], dtype=float) / 64.0
+    if case.get("shape2"): r0 = r0[:, None] * numpy.ones((1, 2))
+    ns = _nself(case)
+    out = {"hygiene": []}
+    def call(name, f, *a):
+        r = r0.copy(); keep = r.tobytes()
+        try: v = f(r, *a)
+        except Exception as e:
+            out[name] = "raised " + type(e).__name__; return
+        if r.tobytes() != keep: out["hygiene"].append("%s modified its argument r in place" % name)
+        if isinstance(v, numpy.ndarray) and numpy.shares_memory(v, r): out["hygiene"].append("%s returns memory of its argument" % name)
+        v = numpy.asarray(v, dtype=float)
+        out[name] = _fl(v[:, 0] if v.ndim == 2 else v) if v.shape[:1] == r0.shape[:1] else "shape %s" % (v.shape,)
+    call("rk", U_.rprob_filial, ns + 1)
+    call("D1", U_.cov_D1s, ns); call("D2", U_.cov_D2s, ns)
+    call("D1t0", U_.cov_D1st, ns, 0); call("D2t0", U_.cov_D2st, ns, 0)
+    return out
+
+def _pred_util(case, out):
+    bad = list(out.get("hygiene", []))
+    for i, k in enumerate(case["rs"]):
+        r = k / 64.0
+        G0, F = _meiosis2(r), _evolve2(r, case["nself"])
+        d1 = 4.0 * _cov2(numpy.einsum("ab,abg->g", _init_dist("two", G0, (3, 0)), F))
+        d2 = 16.0 * _cov2(numpy.einsum("ab,abg->g", _init_dist("three", G0, (0, 3, 0)), F)) - 2.0 * d1
+        for nm, want in (("D1", d1), ("D2", d2), ("D1t0", d1), ("D2t0", d2), ("rk", (1.0 - d1) / 2.0)):
+            got = out.get(nm)
+            if isinstance(got, str) or got is None: bad.append("%s(r, nself=%s) %s" % (nm, case["nself"], got)); continue
+            if not _close(got[i], want, 1e-9): bad.append("%s at r=%r, nself=%s: %r, the two-locus enumeration gives %r" % (nm, r, case["nself"], got[i], want))
+    seen = []
+    for b in bad:
+        if b not in seen: seen.append(b)
+    return seen
+
+def _emit_util(case, out):
+    if any(isinstance(out.get(k), str) or k not in out for k in ("rk", "D1", "D2", "D1t0", "D2t0")): return "false"
+    if any(_has_nan(out[k]) for k in ("rk", "D1", "D2", "D1t0", "D2t0")): return "false"
+    rs = E.lst([Fraction(k, 64) for k in case["rs"]], E.q)
+    d = "None" if case["nself"] == "inf" else "(Some %s)" % E.nat(case["nself"])
+    f = lambda k: E.lst(out[k], _q)
+    return ("(let rs := %s in let d := %s in qclose_l %s (map (fun r => rprob_filial r (dsucc d)) rs) && qclose_l %s (map (fun r => cov_D1s r d) rs) && "
+            "qclose_l %s (map (fun r => cov_D2s r d) rs) && qclose_l %s (map (fun r => cov_D1s r d) rs) && qclose_l %s (map (fun r => cov_D2s r d) rs))"
+            % (rs, d, f("rk"), f("D1"), f("D2"), f("D1t0"), f("D2t0")))
+
+# ----------------------------------------------------------------------------------------------- entry-point audit (fail closed)
+_S4 = ("TwoWay", "ThreeWay", "FourWay", "Dihybrid")
+COVERED_CLASSES = (["pybrops.model.vmat.Dense%sDHAdditive%sVarianceMatrix" % (s_, k_) for s_ in _S4 for k_ in ("Genetic", "Genic")]
+                   + ["pybrops.model.pcvmat.Dense%sDHAdditiveProgenyGeneticCovarianceMatrix" % s_ for s_ in _S4])
+COVERED_FACTORIES = (["pybrops.model.vmat.fcty.Dense%sDHAdditiveGeneticVarianceMatrixFactory" % s_ for s_ in _S4]
+                     + ["pybrops.model.vmat.fcty.DenseTwoWayDHAdditiveGenicVarianceMatrixFactory"])
+SKIPPED = {
+    # abstract interfaces / semi-abstract bases: no computation of their own, cannot be instantiated (checked: they must stay abstract)
+    "abstract": ["pybrops.model.vmat." + n_ for n_ in ("AdditiveGeneticVarianceMatrix", "AdditiveGenicVarianceMatrix", "DenseAdditiveGeneticVarianceMatrix",
+                 "DenseAdditiveGenicVarianceMatrix", "DenseGeneticVarianceMatrix", "DenseGenicVarianceMatrix", "GeneticVarianceMatrix", "GenicVarianceMatrix")]
+                + ["pybrops.model.vmat.fcty." + n_ for n_ in ("AdditiveGeneticVarianceMatrixFactory", "AdditiveGenicVarianceMatrixFactory",
+                   "GeneticVarianceMatrixFactory", "GenicVarianceMatrixFactory")]
+                + ["pybrops.model.pcvmat." + n_ for n_ in ("AdditiveProgenyGeneticCovarianceMatrix", "AdditiveProgenyGenicCovarianceMatrix",
+                   "DenseAdditiveProgenyGeneticCovarianceMatrix", "DenseAdditiveProgenyGenicCovarianceMatrix", "DenseProgenyGeneticCovarianceMatrix",
+                   "DenseProgenyGenicCovarianceMatrix", "ProgenyGeneticCovarianceMatrix", "ProgenyGenicCovarianceMatrix")]
+                # the genic covariance classes have a from_algmod but leave is_square_trait / nsquare_trait / square_trait_axes_len abstract:
+                # no object of them can exist; if they become concrete the audit fails until they are covered
+                + ["pybrops.model.pcvmat.Dense%sDHAdditiveProgenyGenicCovarianceMatrix" % s_ for s_ in _S4],
+    # members of the covered classes that are not (co)variance computations
+    "members": {"from_csv": "persistence round trips: property C16", "from_hdf5": "C16", "from_pandas": "C16", "to_csv": "C16", "to_hdf5": "C16"},
+    "functions": {"pybrops.model.vmat.util.cov_D1st[t>0]": "random intermating generations are outside the property statement (selfing only); t = 0 is covered and must equal cov_D1s",
+                  "pybrops.model.vmat.util.cov_D2st[t>0]": "as cov_D1st",
+                  "pybrops.core.util.subroutines.matrix_is_sorted": "not used by the anchored computations", "pybrops.core.util.subroutines.slice_to_range": "not used",
+                  "pybrops.core.util.subroutines.slice_to_list": "not used", "pybrops.core.util.subroutines.human2bytes": "not used"},
+    "parameters": {"gmapfn": "HaldaneMapFunction and KosambiMapFunction (free positions) are driven; they are the only GeneticMapFunction subclasses",
+                   "ploidy != 2 / more than two phases": "the property is about diploid parents (ASSUMPTIONS)", "nself < 0": "rejected by cov_D1s (ValueError), outside the quantifier"},
+}
+COVERED_MEMBERS = {"from_algmod", "from_gmod", "epgc", "mat", "to_pandas", "trait_axis", "square_axes", "square_taxa_axes", "square_trait_axes",
+                   "female_axis", "male_axis", "recurrent_axis", "female1_axis", "female2_axis", "male1_axis", "male2_axis",
+                   "nfemale", "nmale", "nrecurrent", "nfemale1", "nfemale2", "nmale1", "nmale2"}
+_SIG = {"genetic.from_algmod": ["algmod", "pgmat", ("nmating", "ncross"), "nprogeny", "nself", "gmapfn", "mem"],
+        "genetic.from_gmod": ["gmod", "pgmat", ("nmating", "ncross"), "nprogeny", "nself", "gmapfn", "kwargs"],
+        "genic.from_algmod": ["algmod", "pgmat", "nprogeny", "mem"], "genic.from_gmod": ["gmod", "pgmat", "nprogeny", "kwargs"],
+        "fcty.genetic.from_algmod": ["self", "algmod", "pgmat", "ncross", "nprogeny", "nself", "gmapfn", "mem", "kwargs"],
+        "fcty.genetic.from_gmod": ["self", "gmod", "pgmat", "ncross", "nprogeny", "nself", "gmapfn", "kwargs"],
+        "fcty.genic.from_algmod": ["self", "algmod", "pgmat", "nprogeny", "mem", "kwargs"], "fcty.genic.from_gmod": ["self", "gmod", "pgmat", "nprogeny", "kwargs"]}
+
+def _audit():
+    """every public class / function / method / parameter of the anchored packages is either driven by the generators or listed in
+    SKIPPED with a reason; anything new makes the check fail until it is classified"""
+    import importlib, pkgutil, inspect
+    bad = []
+    def sig_ok(f, want):
+        got = list(inspect.signature(f).parameters)
+        return len(got) == len(want) and all((g in w) if isinstance(w, tuple) else g == w for g, w in zip(got, want))
+    known = set(COVERED_CLASSES) | set(COVERED_FACTORIES) | set(SKIPPED["abstract"])
+    for pkgname in ("pybrops.model.vmat", "pybrops.model.vmat.fcty", "pybrops.model.pcvmat"):
+        pkg = importlib.import_module(pkgname)
+        for mi in pkgutil.iter_modules(pkg.__path__):
+            if mi.ispkg:
+                if pkgname + "." + mi.name != "pybrops.model.vmat.fcty": bad.append("unclassified sub-package %s.%s" % (pkgname, mi.name))
+                continue
+            full = pkgname + "." + mi.name
+            m = importlib.import_module(full)
+            for nm, o in vars(m).items():
+                if nm.startswith("_") or getattr(o, "__module__", None) != full: continue
+                if inspect.isclass(o):
+                    if full not in known or nm != mi.name: bad.append("unclassified class %s.%s" % (full, nm)); continue
+                    abstract = bool(getattr(o, "__abstractmethods__", None))
+                    if full in SKIPPED["abstract"]:
+                        if not abstract: bad.append("%s is listed as abstract but can now be instantiated: cover it" % full)
+                        continue
+                    if abstract: bad.append("%s is covered but abstract" % full); continue
+                    own = {k for k in vars(o) if not k.startswith("_")}
+                    if full in COVERED_FACTORIES:
+                        if own != {"from_algmod", "from_gmod"}: bad.append("%s: unclassified members %s" % (full, sorted(own - {"from_algmod", "from_gmod"})))
+                        fam = "fcty.genic" if "Genic" in nm else "fcty.genetic"
+                    else:
+                        extra = own - COVERED_MEMBERS - set(SKIPPED["members"])
+                        if extra: bad.append("%s: unclassified members %s" % (full, sorted(extra)))
+                        fam = "genic" if "Genic" in nm else "genetic"
+                    for meth in ("from_algmod", "from_gmod"):
+                        if not sig_ok(getattr(o, meth), _SIG[fam + "." + meth]):
+                            bad.append("%s.%s has parameters %s (the generators drive %s)" % (full, meth, list(inspect.signature(getattr(o, meth)).parameters), _SIG[fam + "." + meth]))
+                elif callable(o):
+                    if full == "pybrops.model.vmat.util":
+                        if nm not in ("rprob_filial", "cov_D1s", "cov_D2s", "cov_D1st", "cov_D2st"): bad.append("unclassified function %s.%s" % (full, nm))
+                    elif not nm.startswith("check_is_"): bad.append("unclassified function %s.%s" % (full, nm))
+    import pybrops.model.vmat.util as U_
+    for nm, want in (("rprob_filial", ["r", "k"]), ("cov_D1s", ["r", "nself"]), ("cov_D2s", ["r", "nself"]), ("cov_D1st", ["r", "nself", "t"]), ("cov_D2st", ["r", "nself", "t"])):
+        if not sig_ok(getattr(U_, nm), want): bad.append("util.%s has parameters %s" % (nm, list(inspect.signature(getattr(U_, nm)).parameters)))
+    import pybrops.core.util.subroutines as S_
+    for nm, o in vars(S_).items():
+        if callable(o) and getattr(o, "__module__", None) == S_.__name__ and not nm.startswith("_"):
+            if nm != "srange" and "pybrops.core.util.subroutines." + nm not in SKIPPED["functions"]: bad.append("unclassified function subroutines." + nm)
+    if not sig_ok(S_.srange, ["start", "stop", "step"]): bad.append("srange parameters changed")
+    import pybrops.breed.prot.sel.prob.UsefulnessCriterionSelectionProblem as UC
+    want_uc = {"UsefulnessCriterionSelectionProblemMixin": {"_calc_uc", "_calc_xmap", "from_pgmat_gpmod", "from_pgmat_gpmod_xmap", "nlatent", "ucmat"},
+               "UsefulnessCriterionBinaryMateSelectionProblem": {"from_pgmat_gpmod", "from_pgmat_gpmod_xmap", "latentfn"},
+               "UsefulnessCriterionIntegerMateSelectionProblem": {"from_pgmat_gpmod", "from_pgmat_gpmod_xmap", "latentfn"},
+               "UsefulnessCriterionRealMateSelectionProblem": {"from_pgmat_gpmod", "from_pgmat_gpmod_xmap", "latentfn"},
+               "UsefulnessCriterionSubsetMateSelectionProblem": {"from_pgmat_gpmod", "from_pgmat_gpmod_xmap", "latentfn", "ucmat"}}
+    for nm, o in vars(UC).items():
+        if inspect.isclass(o) and o.__module__ == UC.__name__:
+            own = {k for k in vars(o) if not k.startswith("__") and k != "_abc_impl"}
+            if nm not in want_uc: bad.append("unclassified class %s in the usefulness-criterion module" % nm)
+            elif own != want_uc[nm]: bad.append("%s: members %s (classified: %s; latentfn / nlatent belong to property C05)" % (nm, sorted(own), sorted(want_uc[nm])))
+    if not sig_ok(UC.UsefulnessCriterionSelectionProblemMixin._calc_uc,
+                  ["vmatfcty", "ncross", "nprogeny", "nself", "gmapfn", "selection_intensity", "pgmat", "gmod", "xmap"]): bad.append("_calc_uc parameters changed")
+    return bad
+
 # ----------------------------------------------------------------------------------------------- independent predicate
 def _haldane(d): return 0.5 * (1.0 - math.exp(-2.0 * d))
+def _kosambi(d): return 0.5 * math.tanh(2.0 * d)
+def _mapr(case, d): return _kosambi(d) if case.get("mapfn", "haldane") == "kosambi" else _haldane(d)
 
 _H2 = [(0, 0), (0, 1), (1, 0), (1, 1)]                 # two-locus haplotypes
 def _meiosis2(r):
@@ -371,7 +703,7 @@ def truth_pairwise(case):
     cache = {}
     for i in range(p):
         for j in range(p):
-            r = 0.5 if chrom[i] != chrom[j] else _haldane(abs(pos[i] - pos[j]))
+            r = 0.5 if chrom[i] != chrom[j] else _mapr(case, abs(pos[i] - pos[j]))
             if i == j: r = 0.0
             key = round(r, 15)
             if key not in cache: cache[key] = (_meiosis2(r), _evolve2(r, case["nself"]))
@@ -472,6 +804,10 @@ def pred(case, out):
         return ["harness/implementation raised %s: %s" % (out["exc"], out["msg"])]
     bad = []
     scheme, kind = case["scheme"], case["kind"]
+    if kind == "audit":
+        return list(out["audit"])
+    if kind == "util":
+        return _pred_util(case, out)
     n = len(case["hap0"]); t = len(case["u"][0])
     if kind == "uc":
         return _pred_uc(case, out)
@@ -490,6 +826,31 @@ def pred(case, out):
         bad.append("trait labels %s, the genomic model's are %s" % (out["trait"], want_trait))
     want_epgc = {"two": [0.5, 0.5], "three": [0.5, 0.25, 0.25], "four": [0.25] * 4, "di": [0.5, 0.5]}[scheme]
     if out["epgc"] != want_epgc: bad.append("epgc %s" % out["epgc"])
+    bad += list(out.get("hygiene", []))
+    # ---- which axis carries which parent; the labelled long table (to_pandas) reports the same numbers under the right labels
+    if "axes" in out:
+        want_ax = {"trait_axis": dim, "ntaxa": n, "ntrait": t, "square_taxa_axes": list(range(dim))}
+        for k_, nm in enumerate(AXES[scheme]):
+            want_ax[nm + "_axis"] = k_; want_ax["n" + nm] = n
+        if out["axes"] != want_ax: bad.append("axis properties %s, expected %s" % (out["axes"], want_ax))
+    if isinstance(out.get("pandas"), str): bad.append("to_pandas " + out["pandas"])
+    elif "pandas" in out:
+        cols = out["pandas"]["cols"]
+        want_cols = AXES[scheme] + (["trait1", "trait2", "covariance"] if kind == "cov" else ["trait", "variance"])
+        if cols != want_cols: bad.append("to_pandas columns %s, expected %s" % (cols, want_cols))
+        else:
+            seen_rows = set()
+            for r in out["pandas"]["rows"]:
+                try:
+                    ix_ = tuple(int(v[1:]) for v in r[:dim]) + tuple(int("".join(ch for ch in v if ch.isdigit())) for v in r[dim:-1])
+                except ValueError:
+                    bad.append("to_pandas row %s: unreadable labels" % (r,)); break
+                seen_rows.add(ix_)
+                got = r[-1]; want = _get(out["mat"], ix_)
+                if got != want and not _close(got, want, 1e-12):
+                    bad.append("to_pandas row %s reports %r, the matrix entry is %r" % (r[:-1], got, want)); break
+            nrows = n ** dim * (t * t if kind == "cov" else t)
+            if len(seen_rows) != nrows: bad.append("to_pandas has %d distinct rows, expected %d" % (len(seen_rows), nrows))
     # ---- values against the enumeration
     truth = truth_genic(case) if kind == "genic" else truth_pairwise(case)
     mat = out["mat"]
@@ -503,7 +864,7 @@ def pred(case, out):
                     nbad += 1
                     bad.append("entry %s trait %s: reported %r, gamete enumeration gives %r" % (list(c), (a, b) if kind == "cov" else a, got, float(want)))
     # ---- full multi-locus enumeration on a few crosses (small cases)
-    if kind != "genic" and len(case["pos"]) <= 4 and case["nself"] in (0, 1, 2):
+    if kind != "genic" and len(case["pos"]) <= 4 and case["nself"] in (0, 1, 2) and case.get("mapfn", "haldane") == "haldane":
         crosses = [c for c in truth if not _diag_pattern(scheme, c)][:4] + [c for c in truth if _diag_pattern(scheme, c)][-3:]
         for c in crosses:
             tv = truth_full(case, c)
@@ -545,7 +906,7 @@ def _pred_uc(case, out):
     if "raised" in out:
         if out["raised"] == "empty-xmap": return []
         return ["usefulness criterion (%s) raised %s: %s" % (case["scheme"], out["raised"], out.get("msg", ""))]
-    bad = []
+    bad = list(out.get("hygiene", []))
     scheme = case["scheme"]
     n = len(case["hap0"]); t = len(case["u"][0])
     npar = NPAR[scheme]
@@ -585,6 +946,7 @@ def classify(case, out, clauses):
     return None
 
 def nontrivial(case, out):
+    if case["kind"] in ("audit", "util"): return case["kind"] == "util" and "exc" not in out
     chrom = _chrgrp(case)
     h = case["hap0"] + case["hap1"]
     for a in h:
@@ -594,7 +956,9 @@ def nontrivial(case, out):
     return False
 
 def describe(case, out):
-    return {"scheme": case["scheme"], "kind": case["kind"], "via": case["via"] if case["kind"] != "uc" else "uc:" + case["ucvia"],
+    if case["kind"] in ("audit", "util"): return {"kind": case["kind"], "nself": case.get("nself", "-")}
+    return {"route": case.get("route", "ctor"), "uscale": case.get("uscale", 0), "mapfn": case.get("mapfn", "haldane"), "pe": case.get("pe", 0),
+            "ncross": case.get("ncross", 1), "nprogeny": case.get("nprogeny", 10), "scheme": case["scheme"], "kind": case["kind"], "via": case["via"] if case["kind"] != "uc" else "uc:" + case["ucvia"],
             "nself": case["nself"], "mem": "None" if case["mem"] is None else ("1" if case["mem"] == 1 else ("<=chr" if case["mem"] <= max(case["sizes"]) else ">chr")),
             "ntaxa": len(case["hap0"]), "nloci": len(case["pos"]), "nchr": len(case["sizes"]), "ntrait": len(case["u"][0]), "posmode": case["posmode"],
             "raised": out.get("raised", out.get("exc", "no"))}
@@ -625,6 +989,8 @@ def _nest(x, f):
 def emit_case(case, out):
     if "exc" in out: return "false"
     scheme, kind = case["scheme"], case["kind"]
+    if kind == "audit" or case.get("big"): return None
+    if kind == "util": return _emit_util(case, out)
     n = len(case["hap0"]); t = len(case["u"][0])
     G0 = E.lst2(case["hap0"], E.z); G1 = E.lst2(case["hap1"], E.z)
     if case["mem"] is not None and case["mem"] >= 5000: case = dict(case, mem=4999)      # nat literal limit; any step > chromosome size is one chunk
@@ -637,7 +1003,10 @@ def emit_case(case, out):
         impl = _nest(out["mat"], _q)
         fn = {"two": ("qlll_eqb", "genic_var"), "di": ("qlll_eqb", "genic_var"), "three": ("ql4_eqb", "genic3_var"), "four": ("ql5_eqb", "genic4_var")}[scheme]
         return "%s %s (%s %s %s %s %s %s %s)" % (fn[0], impl, fn[1], U, E.nat(p), G0, G1, E.nat(n), E.nat(t))
-    head = "(let R := %s in let S := mk_setup %s %s %s %s %s R in r_ok R %s && " % (R, E.nat(p), U, chroms, mem, nself, chroms)
+    if case.get("mapfn", "haldane") == "kosambi":        # a map function with interference: the shipped r_ij are not multiplicative along a group
+        head = "(let R := %s in let S := mk_setup %s %s %s %s %s R in true && " % (R, E.nat(p), U, chroms, mem, nself)
+    else:
+        head = "(let R := %s in let S := mk_setup %s %s %s %s %s R in r_ok R %s && " % (R, E.nat(p), U, chroms, mem, nself, chroms)
     if kind == "uc":
         sc = {"two": 2, "three": 3, "four": 4, "di": 0}[scheme]
         beta = E.lst([Fraction(b) for b in case["beta"]], E.q)
@@ -671,6 +1040,7 @@ def _drop_taxon(case, i):
 def shrink(case, fails):
     """greedy: one trait, fewer taxa, fewer loci, simpler options — while the predicate still fails"""
     cur = dict(case)
+    if case["kind"] in ("audit", "util"): return cur
     def novel(c):
         # a failure that is not (only) a known finding: some clause without a known-pattern tag
         try: o = run_impl(c)
@@ -698,3 +1068,10 @@ def shrink(case, fails):
         if cur.get(key) != val and not (key == "via" and cur["kind"] == "uc"):
             attempt(dict(cur, **{key: val}))
     return cur
+
+# ----------------------------------------------------------------------------------------------- translator hook
+def translate(repo, gen_dir):
+    """regenerate Gen/C12_Kernel.v (kernel expressions of util.py, srange, the eight from_algmod loop nests, the four genic
+    classes and _calc_uc) from the current source; fail closed"""
+    from translate import c12_kernel
+    return [c12_kernel.translate(repo, gen_dir)]
